@@ -36,8 +36,12 @@ MANIFEST = dict(
          "real servers received, so 'for every format alike' and 'only where the entry does not define it' are quantified, "
          "not sampled; connection reuse is decided on the server's own ConnState log for N=1..4 instances. Grown beyond the "
          "statement: multi-entry files, connect gun (CONNECT line, tunnel per connection, refused tunnel), shared-client pools "
-         "(connections <= client-number, round-robin), header/date middleware, answlog/httptrace as pure observers.",
-    note="Header values/URIs/bodies are tokens of a fixed alphabet (RFC-valid URIs, printable bodies; byte-level fidelity of "
+         "(connections <= client-number, round-robin), header/date middleware, answlog/httptrace as pure observers, valid RFC 3986 "
+         "request-targets in a spelling of their own (percent-encoded reserved characters, sub-delims, empty segments, leading //, "
+         "bare ?) byte-identical through every format and gun, the http2 gun (HTTP/2.0 iff it meets a target offering h2, nothing "
+         "delivered otherwise; one h2 connection per instance).",
+    note="Header values/URIs/bodies are tokens of a fixed alphabet (RFC-valid URIs - request-targets are built by TLC from classed "
+         "pieces -, printable bodies; byte-level fidelity of "
          "arbitrary bodies is C07's). Extra headers tolerated: exactly Go's transport defaults (User-Agent when absent, "
          "Content-Length/Transfer-Encoding, Accept-Encoding only with compression on). json: Host inside `headers` without "
          "`host` is outside the domain (docs say ignored, code uses it). Trusted: renderer/recorder in harness "
@@ -70,12 +74,19 @@ def _case_class(c):
     extra = ""
     if c.get("gun") == "connect":
         extra = " gun=connect cssl=%s cstatus=%s" % (c["cssl"], c["cstatus"])
+    if c.get("gun") == "http2":
+        extra = " gun=http2 target-offers-h2=%s" % c.get("h2")
+    elif c.get("h2"):
+        extra = " target-offers-h2=True"
     if c.get("tname"):
         extra = " target=by-name"
     if "mw" in c:
         extra = " mw=header/date(name=%s,loc=%s)" % (c["mw"]["name"] or "default", c["mw"]["loc"] or "UTC")
     if "side" in c:
         extra = " side=answlog:%s,status:%s,httptrace:%s" % (c["side"]["answlog"], c["side"]["status"], c["side"]["trace"])
+    if "rt" in c:        # structured RFC 3986 request-target: name the character classes it is made of
+        cl = sorted(({p["class"] for p in c["rt"]["segs"]} | {c["rt"]["query"]["class"]}) - {"none", "unreserved"})
+        extra += " target=rfc3986(%s%s) preload=%s" % (",".join(cl) or "plain", ",bare-?" if c["rt"]["query"]["raw"] == "?" else "", c["preload"])
     en = sorted(h["n"].lower() for h in c["ehdr"])
     on = sorted(o["n"].lower() for o in c["opts"])
     overlap = sorted(set(en) & set(on))
@@ -107,9 +118,9 @@ def validate_cases(v, obs_path, cfg, timeout=900):
                         replay_name="file_%d_%d_%s.json" % (row["id"], k, inv))
             continue
         v.violation("wire %s inv=%s" % (_case_class(c), inv),
-                    "case %d %s: target saw %s (samples %s, err=%r) — rule %s of HttpWire.tla fails; ammo file %r, headers option %s" % (
+                    "case %d %s: target saw %s (samples %s, err=%r, panic=%r) — rule %s of HttpWire.tla fails; ammo file %r, headers option %s" % (
                         row["id"], {k: c[k] for k in ("fmt", "ssl", "method", "uri", "host", "ehdr", "body")},
-                        row["obs"], row["samples"], row["err"], inv, row["file"], c["opts"]),
+                        row["obs"], row["samples"], row["err"], row.get("panic", ""), inv, row["file"], c["opts"]),
                     replay_obj={"kind": "case", "invariant": inv, "case": {"id": row["id"], "c": c}, "observed": row, "cfg": cfg} if keep else None,
                     replay_name="case_%d_%s.json" % (row["id"], inv))
     return rows, tr
@@ -157,7 +168,8 @@ def run(tier, v):
             ("HttpConnMC", "HttpConn_neg_noreuse.cfg"), ("HttpConnMC", "HttpConn_neg_idledrop.cfg"),
             ("HttpConnMC", "HttpConn_neg_ownclient.cfg"), ("HttpConnMC", "HttpConn_neg_noexpire.cfg"),
             ("HttpWireMC", "HttpWire_neg_shared_cursor.cfg"), ("HttpWireMC", "HttpWire_neg_framing_chunked.cfg"),
-            ("HttpWireMC", "HttpWire_neg_target_resolved.cfg")]
+            ("HttpWireMC", "HttpWire_neg_target_resolved.cfg"),
+            ("HttpWireMC", "HttpWire_neg_uri_rebuilt.cfg"), ("HttpWireMC", "HttpWire_neg_h2_fallback.cfg")]
     if not thorough:
         # quick: one negative control per mechanism; the thorough tier runs all of them
         skip = ("host_target", "opt_always", "mw_twice", "side_changes", "shared1", "noreuse", "empty_undefined")
@@ -229,7 +241,13 @@ def run(tier, v):
         "middleware_cases": sum(1 for c in gen if "mw" in c["c"]), "side_channel_cases": sum(1 for c in gen if "side" in c["c"]),
         "conn_runs_connect_gun": sum(1 for r in runs if r.get("gun") == "connect"),
         "conn_runs_shared_client": sum(1 for r in runs if r.get("shared")),
+        "conn_runs_http2_gun": sum(1 for r in runs if r.get("gun") == "http2"),
         "named_target_cases": sum(1 for c in gen if c["c"].get("tname")),
+        "http2_gun_cases": sum(1 for c in gen if c["c"].get("gun") == "http2"),
+        "http2_gun_cases_target_without_h2": sum(1 for c in gen if c["c"].get("gun") == "http2" and not c["c"].get("h2")),
+        "http1_guns_against_h2_capable_target": sum(1 for c in gen if c["c"].get("gun") != "http2" and c["c"].get("h2")),
+        "rfc3986_target_cases": sum(1 for c in gen if "rt" in c["c"]),
+        "rfc3986_targets": len({c["c"]["uri"] for c in gen if "rt" in c["c"]}),
         "reuse_cases": len(reuse_ids), "reuse_requests_checked": sum(1 for r in rows if r["id"] in reuse_ids),
         "conn_runs_idle_expiry": sum(1 for r in runs if r.get("idle_ms") and r.get("gap_ms", 0) > r["idle_ms"]),
         "single_entry_cases": len(gen) - len(files) - len(reuse_ids), "multi_entry_files": len(files), "file_entries_checked": len(rows) - len(single),
